@@ -3,6 +3,7 @@
 configuration the checks use (main, shuttle for C15, the C19 build matrix), so
 that the checks themselves only pay an incremental rebuild."""
 import os, sys
+os.environ.setdefault("VERIF_DIR", os.path.dirname(os.path.dirname(os.path.abspath(__file__))))
 from concurrent.futures import ThreadPoolExecutor
 sys.path.insert(0, os.path.dirname(os.path.abspath(__file__)))
 import vbuild, c19
